@@ -190,6 +190,17 @@ def translate(repo):
                 raise Untranslatable("split_to_sequence: unexpected handling of split_value is None")
             none_guard = True
     txt += f"Definition split_value_none_guard : bool := {'true' if none_guard else 'false'}.\n"
+    # cast_like: is the saturate attribute of CastLike handed to the new Cast node?
+    cl = next((n for n in tree.body if isinstance(n, ast.FunctionDef) and n.name == "cast_like"), None)
+    if cl is None:
+        raise Untranslatable("cast_like not found")
+    casts = [x for x in ast.walk(cl) if isinstance(x, ast.Call) and isinstance(x.func, ast.Attribute) and x.func.attr == "Cast"]
+    with_sat = [x for x in casts if any(kw.arg == "saturate" for kw in x.keywords)]
+    if not casts or len(casts) > 2 or any(kw.arg not in ("to", "saturate") for x in casts for kw in x.keywords):
+        raise Untranslatable("cast_like: unexpected Cast construction")
+    if with_sat and "_get_int_attribute(node, 'saturate', None)" not in ast.unparse(cl):
+        raise Untranslatable("cast_like: saturate is not read from the CastLike node as the model assumes")
+    txt += f"Definition castlike_keeps_saturate : bool := {'true' if with_sat else 'false'}.\n"
     return txt, {"registry": [(d, o, lo, hi) for d, o, lo, hi, _ in registry], "order": order, "returns": n_ret,
                  "guard": guard, "clear_keeps": keep}
 
